@@ -75,6 +75,9 @@ def check(ctx):
             ctx.violated("R4-weights-double-precision", f"{k2}[{' '.join(ast.unparse(c).split())[:60]}]", "interpolation weights / data are cast to another array's dtype: for an integer "
                          "record the fractional taps truncate to 0", f"{DSP}:{c.lineno}")
     ctx.holds("R4-weights-double-precision", k2, "no data-dependent dtype cast", repo.where(k2, f2))
+    # ---- R5 no module-level memo of argument-derived values (taps remembered by the identity of the shifts array)
+    from ..effects import check_no_global_memo
+    check_no_global_memo(ctx, rule="R5-no-global-memo", files=(DSP,), floor=15)
     ctx.trust("uniqueness of the interpolating polynomial (Lagrange form)", "np.correlate(a, v, 'valid')[n] = sum_k a[n+k] v[k]", "np.pad / sliding_window_view / einsum rows of Appendix B")
     ctx.assume("exact arithmetic", "closed-form taps are decided by partial evaluation for orders 1,3,5,7 only; orders 9..111 are not decided",
                "stencil origins are decided on concrete instances (n=24; shifts 2.25, -3.5, 0.75; orders 1,3,5; interior samples)")
